@@ -101,7 +101,17 @@ func verifyOne(prog *Program, cs *ContractSet, con *Contract, workDir string, ti
 	}
 	sort.Strings(rep.Used)
 	os.MkdirAll(workDir, 0o755)
-	results := solveAll(x, x.obligs, workDir, timeoutS, par)
+	todo := x.obligs
+	if gProp != "" {
+		// obligations of clauses tagged for other properties only are not part of this check: do not spend solver time on them
+		todo = nil
+		for _, o := range x.obligs {
+			if len(o.Props) == 0 || hasProp(o.Props, gProp) {
+				todo = append(todo, o)
+			}
+		}
+	}
+	results := solveAll(x, todo, workDir, timeoutS, par)
 	byName := map[string]*ObligSummary{}
 	var order []string
 	for _, ir := range results {
